@@ -6,6 +6,8 @@ From SU Require Import F32 F32Lemmas.
 From SU.Model Require Import PhaseAcc Adsr.
 From SU.Spec Require Import AdsrSpec.
 From SU.Proofs Require Import AdsrContinuityProofs.
+From SU.Proofs Require Import AdsrTrace2Proofs.
+From SU.Proofs Require Import AdsrTraceProofs.
 Open Scope R_scope.
 
 (** steepest slope of the active curve (per whole phase): slightly above the derivative of
@@ -33,10 +35,66 @@ Theorem C03_step_bound : forall s evs,
        + Rabs (R32 (a_sustain s1) - R32 (a_sustain s)) + 8 * / 16777216.
 Proof. exact step_bound. Qed.
 
-(** the hypotheses are met by every reachable state right after a tick *)
+(** the first two hypotheses are met by every reachable state right after a tick; the third (the
+    increment bound) and the composition are discharged in C03_trace_step_bound below *)
 Theorem C03_applicable : forall fs ops,
   Inv (adsr_run fs ops) /\ synced (adsr_run fs (ops ++ [ATick])).
 Proof. exact step_bound_applicable. Qed.
 
+(** trace level, with only the property's own quantifier as hypothesis: for every legal rate, every history ending in a tick, and any gate events and parameter changes before the next tick, the output moves by at most slope * phase step + the sustain change + 8*2^-24 (every hypothesis of C03_step_bound is discharged for reachable states) *)
+Theorem C03_trace_step_bound : forall fs pre evs, fs_ok fs -> Forall is_event evs ->
+  let s := adsr_run fs (pre ++ [ATick]) in
+  let s1 := fold_left adsr_step evs s in
+  let s2 := adsr_step s1 ATick in
+  Rabs (R32 (a_value s2) - R32 (a_value s))
+    <= slope (a_state s1) * Rmin 1 (IZR (adsr_inc s1) / 16777216)
+       + Rabs (R32 (a_sustain s1) - R32 (a_sustain s)) + 8 * / 16777216.
+Proof. exact C03_trace_step_bound. Qed.
+
+(** the same for the very first tick of a new envelope *)
+Theorem C03_trace_first_step_bound : forall fs evs, fs_ok fs -> Forall is_event evs ->
+  let s := adsr_new fs in
+  let s1 := fold_left adsr_step evs s in
+  let s2 := adsr_step s1 ATick in
+  Rabs (R32 (a_value s2) - R32 (a_value s))
+    <= slope (a_state s1) * Rmin 1 (IZR (adsr_inc s1) / 16777216)
+       + Rabs (R32 (a_sustain s1) - R32 (a_sustain s)) + 8 * / 16777216.
+Proof. exact C03_trace_first_step_bound. Qed.
+
+(** non-vacuity: a re-trigger from sustain (moves 0.0090, bound 0.0182) *)
+Theorem C03_trace_example_gate_on :
+  let s := adsr_run FS1k (exA_pre ++ [ATick]) in
+  let s1 := fold_left adsr_step [AGateOn] s in
+  let s2 := adsr_step s1 ATick in
+  a_state s = Sustain /\ a_state s1 = Attack /\ a_state s2 = Attack /\
+  adsr_inc s1 = 167772%Z /\
+  to_bits (a_value s) = Some 1056964608%Z /\ to_bits (a_von s1) = Some 1056964608%Z /\
+  to_bits (a_value s2) = Some 1057115629%Z /\
+  a_sustain s1 = a_sustain s /\
+  R32 (a_value s2) - R32 (a_value s) = 151021 / 16777216 /\
+  Rabs (R32 (a_value s2) - R32 (a_value s))
+    <= 1.82 * (167772 / 16777216) + 8 * / 16777216.
+Proof. exact C03_trace_example_gate_on. Qed.
+
+(** non-vacuity: sustain change and gate-off between two decay ticks (the intermediate state is not in sync; moves 0.0377, bound 0.2908) *)
+Theorem C03_trace_example_sustain_gate_off :
+  let s := adsr_run FS1k (exB_pre ++ [ATick]) in
+  let s1 := fold_left adsr_step [ASetSustain F025; AGateOff] s in
+  let s2 := adsr_step s1 ATick in
+  a_state s = Decay /\ pa_acc (a_pa s) = 503316%Z /\
+  ~ synced (adsr_step s (ASetSustain F025)) /\
+  a_state s1 = Release /\ a_state s2 = Release /\ adsr_inc s1 = 167772%Z /\
+  to_bits (a_value s) = Some 1064386062%Z /\ to_bits (a_voff s1) = Some 1064386062%Z /\
+  to_bits (a_value s2) = Some 1063753992%Z /\
+  R32 (a_sustain s) = 1 / 2 /\ R32 (a_sustain s1) = 1 / 4 /\
+  R32 (a_value s2) - R32 (a_value s) = - (632070 / 16777216) /\
+  Rabs (R32 (a_value s2) - R32 (a_value s))
+    <= 4.08 * (167772 / 16777216) + 1 / 4 + 8 * / 16777216.
+Proof. exact C03_trace_example_sustain_gate_off. Qed.
+
 Print Assumptions C03_step_bound.
 Print Assumptions C03_applicable.
+Print Assumptions C03_trace_step_bound.
+Print Assumptions C03_trace_first_step_bound.
+Print Assumptions C03_trace_example_gate_on.
+Print Assumptions C03_trace_example_sustain_gate_off.
